@@ -20,6 +20,17 @@ Import ListNotations.
 
 Record msig := { ms_params : list ann; ms_ret : ann }.
 
+(* variadic parameters (def m(self, p.., *args: VA, **kwargs: VK)): FunctionCall._check_types_args /
+   _check_types_kwargs assert every collected positional value against VA and every surplus keyword value
+   against VK - after the named parameters, in call order, each with a freshly obtained table
+   (self.type_vars, the property).  So a call that collects n positional and k keyword values is a call of
+   the signature with n + k additional positions: *)
+Definition expand_variadic (sg : msig) (va : option ann) (n : nat) (vk : option ann) (k : nat) : msig :=
+  {| ms_params := ms_params sg
+                  ++ match va with Some a => repeat a n | None => [] end
+                  ++ match vk with Some a => repeat a k | None => [] end;
+     ms_ret := ms_ret sg |}.
+
 Inductive clskind :=
 | KPlain                         (* ordinary class, methods decorated with @pedantic one by one *)
 | KPedantic                      (* @pedantic_class, Generic not among the bases *)
